@@ -91,7 +91,7 @@ def provenance(task, cid):
     ins = []
     for name, t in task.input_tasks.items():
         ins.append([name.split('::')[-1], t.value if isinstance(t, Task) else {'__default__': json_safe(t)}])
-    return {'t': task.slugname, 'p': ps, 'i': ins}
+    return {'i': ins, 'p': ps, 't': task.slugname}
 
 
 def json_safe(v):
@@ -191,8 +191,8 @@ def build_config(case, mod, base=None, data_dir='data'):
     base = base or case['base']
     kw = dict(global_vars=gv_arg(case), context=ctx_arg(case.get('context'), mod))
     if 'file' in base:
-        return Config(data_dir, base['file'], **kw)
-    return Config(data_dir, name=base['name'], data=subst_mod(spec_to_doc(base['data']), mod), **kw)
+        return Config(Path(data_dir), base['file'], **kw)
+    return Config(Path(data_dir), name=base['name'], data=subst_mod(spec_to_doc(base['data']), mod), **kw)
 
 
 def to_spec(v):
@@ -218,7 +218,14 @@ def to_spec(v):
     return {'__user__': f'<unknown {type(v).__name__}>'}
 
 
-def observe_chain(chain):
+def rel_path(p):
+    if p is None:
+        return None
+    s = str(p)
+    return s[len('data/'):] if s.startswith('data/') else s
+
+
+def observe_chain(chain, with_paths=False):
     """Names, keys, parameter values, inputs and object identity of a constructed chain."""
     from taskchain.task import Task
     canon = {}
@@ -238,6 +245,7 @@ def observe_chain(chain):
             params={p.name: to_spec(p._value) for p in t.parameters.values()},
             inputs=ins,
             canon=canon[id(t)],
+            path=rel_path(t.data_path) if with_paths else None,
         )
     edges = sorted({(canon[id(u)], canon[id(v)]) for u, v in chain.graph.edges})
     return dict(tasks=out, edges=[list(e) for e in edges])
@@ -307,3 +315,134 @@ def cworld(case, mod):
     classes = clist([cclass(c, by_id) for c in order])
     ctx = 'None' if case.get('context') is None else f'(Some {cctx(case["context"], mod)})'
     return cpair(files, classes, imports, clist([cstr('tcv_dyn_objects.User')]), cgv(case), ctx)
+
+
+# ---------- histories ----------
+def list_store(root='data'):
+    out = []
+    base = Path(root)
+    for p in sorted(base.rglob('*'), key=lambda q: str(q.relative_to(base))):
+        rel = str(p.relative_to(base))
+        out.append(rel + '/' if p.is_dir() and not p.is_symlink() else rel)
+    return out
+
+
+def exec_segment(case, mod, ops, fail):
+    """Execute the operations of one process lifetime; returns one observation per op."""
+    from taskchain import MultiChain
+    from . import pipeline as me
+    me.FAIL.clear()
+    me.FAIL.update(fail)
+    chains, obs = [], []
+    for op in ops:
+        before = len(me.RUNLOG)
+        resolved = dict(op)
+        try:
+            kind = op['op']
+            if kind == 'build':
+                try:
+                    chain = build_config(case, mod, base=op['base']).chain()
+                    chains.append(chain)
+                    out = ['ok', {'chain': observe_chain(chain)}]
+                except Exception as e:
+                    chains.append(None)
+                    out = 'error'
+                    resolved['err'] = f'{type(e).__name__}: {e}'[:200]
+            elif kind == 'multi':
+                try:
+                    mc = MultiChain([build_config(case, mod, base=b) for b in op['bases']])
+                    members = list(mc.chains.values())
+                    chains.extend(members)
+                    out = ['ok', {'chains': [observe_chain(c) for c in members]}]
+                except Exception as e:
+                    chains.extend([None] * len(op['bases']))
+                    out = 'error'
+                    resolved['err'] = f'{type(e).__name__}: {e}'[:200]
+            elif kind == 'fail':
+                me.FAIL.clear()
+                me.FAIL.update(op['slugs'])
+                out = ['ok', None]
+            else:
+                chain = chains[op['chain']] if op['chain'] < len(chains) else None
+                if chain is None or (not chain.tasks and kind != 'force_chain'):
+                    resolved['name'] = '?'
+                    resolved['names'] = []
+                    out = 'error'
+                elif not chain.tasks:
+                    resolved['names'] = []
+                    chain.force([], recompute=op['recompute'], delete_data=op['delete'])
+                    out = ['ok', None]
+                else:
+                    names = list(chain.tasks)
+                    if 'pick' in op:
+                        resolved['name'] = names[op['pick'] % len(names)]
+                    if 'picks' in op:
+                        resolved['names'] = sorted({names[k % len(names)] for k in op['picks']})
+                    if kind == 'value':
+                        try:
+                            out = ['ok', {'value': chain.tasks[resolved['name']].value}]
+                        except RuntimeError as e:
+                            out = 'error'
+                    elif kind == 'force_task':
+                        chain.tasks[resolved['name']].force(delete_data=op['delete'])
+                        out = ['ok', None]
+                    elif kind == 'force_chain':
+                        chain.force(resolved['names'], recompute=op['recompute'], delete_data=op['delete'])
+                        out = ['ok', None]
+                    elif kind == 'has_data':
+                        out = ['ok', {'bool': bool(chain.tasks[resolved['name']].has_data)}]
+                    else:
+                        raise ValueError(kind)
+        except Exception as e:   # anything else is an observation too
+            out = {'unexpected_exception': type(e).__name__, 'text': str(e)[:300]}
+        runs = [f'{s}#{k}' for _, s, k in me.RUNLOG[before:]]
+        if op['op'] == 'force_chain':
+            runs = sorted(runs)
+        obs.append(dict(out=out, runs=runs, files=list_store(), op=resolved))
+    return obs, sorted(me.FAIL)
+
+
+def run_history(case):
+    """Run the history of a case; every 'restart' starts a new (forked) process on the same data dir."""
+    segments, cur = [], []
+    for op in case['ops']:
+        if op['op'] == 'restart':
+            segments.append(cur)
+            cur = []
+        else:
+            cur.append(op)
+    segments.append(cur)
+    all_obs, fail = [], []
+    with workspace(case) as (d, mod):
+        for si, seg in enumerate(segments):
+            r, w = os.pipe()
+            pid = os.fork()
+            if pid == 0:
+                code = 0
+                try:
+                    os.close(r)
+                    res = exec_segment(case, mod, seg, fail)
+                    with os.fdopen(w, 'w') as f:
+                        json.dump(res, f, default=repr)
+                except BaseException as e:  # noqa
+                    try:
+                        os.write(w, json.dumps({'child_error': repr(e)}).encode())
+                    except Exception:
+                        pass
+                    code = 1
+                finally:
+                    os._exit(code)
+            os.close(w)
+            with os.fdopen(r) as f:
+                data = f.read()
+            os.waitpid(pid, 0)
+            res = json.loads(data) if data else {'child_error': 'no output'}
+            if isinstance(res, dict):
+                all_obs.append(dict(out={'unexpected_exception': 'child', 'text': res['child_error']}, runs=[], files=[],
+                                    op={'op': 'crash'}))
+                break
+            obs, fail = res
+            all_obs.extend(obs)
+            if si < len(segments) - 1:
+                all_obs.append(dict(out=['ok', None], runs=[], files=list_store(), op={'op': 'restart'}))
+    return all_obs
